@@ -43,13 +43,56 @@ def trigger(scr):
     hs = [l.split(' ')[3] for l in scr if l.split(' ')[0] == 'AT']
     return '0' in hs and '1' in hs and any(l.startswith('EN') for l in scr) and any(l.startswith('RK') for l in scr)
 
+def kem_binding(ctx):
+    """'carries ML-KEM ciphertexts bound into the tag': in hybridized encapsulations with one or several targets, one byte of
+    ANY of the ML-KEM ciphertexts altered (also of a slot the recipient does not open) => no key opens it any more"""
+    import subprocess, c07
+    sz = vf.CONFIGS['default']['sizes']; c07.PT, c07.CT = sz['PT'], sz['CT']
+    layout, _ = c07.coq_layout(ctx)
+    p = subprocess.Popen([vf.harness_bin('mutd'), layout], stdin=subprocess.PIPE, stdout=subprocess.PIPE, text=True)
+    p.stdin.write('GEN\n'); p.stdin.flush()
+    encs = []; usks = []
+    while True:
+        l = p.stdout.readline().strip()
+        if l == 'END' or not l: break
+        f = l.split(' ')
+        if f[0] == 'ENC': encs.append((bytes.fromhex(f[1]), f[2]))
+        else: usks.append(f[1])
+    def ask(e, u):
+        p.stdin.write(f'TRY {e.hex()} {u}\n'); p.stdin.flush()
+        return p.stdout.readline().strip().split(' ')[0][5:]
+    n = 0; bad = []
+    for e, s in encs:
+        pe = c07.Enc(e)
+        if not pe.hyb: continue
+        openers = [u for u in usks if ask(e, u) == 'SOME:' + s]; n += len(usks)
+        for j in range(len(pe.es)):
+            for pos in (0, c07.CT // 2, c07.CT - 1):
+                t = pe.copy(); ct = bytearray(t.es[j][0]); ct[pos] ^= 0x10; t.es[j] = (bytes(ct), t.es[j][1]); m = t.build()
+                for u in openers:
+                    ask(e, u); r = ask(m, u); n += 2
+                    if r.startswith('SOME') or r == 'PANIC': bad.append((len(pe.es), j, pos, r[:30], e.hex(), m.hex(), u))
+    p.stdin.close(); p.wait()
+    ctx.evaluations += n
+    ctx.ob('correspondence', f'hybridized encapsulations (1 and 2 targets): one byte of each ML-KEM ciphertext altered in turn, offered to every key that opens the original ({n} decapsulations): none opens', not bad, str([b[:4] for b in bad[:3]]))
+    if bad:
+        k, j, pos, r, eh, mh, u = bad[0]
+        vf.violation(ctx, f'hybridized encapsulation with {k} targets: byte {pos} of the ML-KEM ciphertext of entry {j} altered, still opened ({r}): the ciphertexts are not bound into the tag', {'original_enc_hex': eh, 'mutated_enc_hex': mh, 'usk_hex': u, 'violations_total': len(bad)})
+
+
 def run(ctx):
     if not hc.ensure_builds(ctx): hc.finish(ctx, 'builds failed')
     n = 500 if ctx.quick() else 10000
     # the name-level semantics also predicts the mode of every encapsulation (h=) through decapsulation outcomes of classic-only holders
     H, impl, model, dis, hits = hc.run_profile(ctx, profiles.with_scenarios(profiles.C11), n, trigger=trigger, extra_oracle=flavour_oracle, claims=lambda op, a, b: op in ('EN', 'DE'))
+    if not hits: kem_binding(ctx)
     hc.vm_crosscheck(ctx, H, model)
     hc.finish(ctx, f'{n} random histories over structures with arbitrary hint assignments, single/multi-target and mixed policies, through rekey/refresh/round trips; every dump is checked: a right is hybridized iff one of its '
               'attributes was declared hybridized, in master, public and user keys; the encapsulation mode (h=) is compared with the model; non-trivial = both hints present, a rekey and an encapsulation')
 
-replay = hc.replay
+def replay(ctx, path):
+    import json
+    rep = json.load(open(path))
+    if 'mutated_enc_hex' not in rep: return hc.replay(ctx, path)
+    import c07
+    return c07.replay(ctx, path)
